@@ -387,6 +387,36 @@ var kC17Mul = register(&Kind[c17Mul]{
 	},
 })
 
+// exhaustiveC17 sweeps contiguous ranges of satoshi amounts (low end, around 1 BCH, around 2^53/1e8
+// boundaries of the float grid, and the top of the 21-million-coin range): BCH round trip and text.
+func exhaustiveC17(ev *Ev) {
+	n := int64(pick(200000, 8000000))
+	starts := []int64{0, 100000000 - n/2, 4503599627370496/100 - n/2, 2100000000000000 - n}
+	var total int64
+	for _, st := range starts {
+		for a := st + int64(shard); a <= st+n; a += int64(nShards) {
+			for _, sign := range []int64{1, -1} {
+				v := a * sign
+				total++
+				am := bchutil.Amount(v)
+				back, err := bchutil.NewAmount(am.ToBCH())
+				if err != nil || back != am {
+					kC17Unit.One(ev, c17Unit{A: v, U: 0})
+					return
+				}
+				if a%16 == 0 { // text (slower: exact rational parse)
+					if err := safeEval(evalC17Unit, c17Unit{A: v, U: 0}, &Obs{}); err != nil {
+						kC17Unit.One(ev, c17Unit{A: v, U: 0})
+						return
+					}
+				}
+			}
+		}
+	}
+	ev.Bulk("C17:exh-contiguous-satoshi-ranges", total, total)
+	ev.Exhaustive(fmt.Sprintf("BCH round trip NewAmount(a.ToBCH())==a for every satoshi amount a (both signs) in four contiguous ranges of %d values: from 0, around 1 BCH, around 2^52 satoshi/100, and ending at 21e14; every 16th also through Format/String", n), 8*n)
+}
+
 func TestC17(t *testing.T) {
 	propTest(t, "C17", func(ev *Ev) {
 		ev.Rule("floats: exact decimal amounts a/1e8 (a<=2.1e15) and the same +-1..3 ulps, tie neighbourhoods (a+0.5)/1e8, products "+
@@ -410,6 +440,7 @@ func TestC17(t *testing.T) {
 		kC17New.One(ev, mkFloat(0.49999999999999994/1e8))
 		kC17Unit.One(ev, c17Unit{A: 2099999999999999, U: -9})
 		kC17Unit.One(ev, c17Unit{A: 1234567, U: -12})
+		exhaustiveC17(ev)
 		kC17New.Run(t, ev, perShard(pick(60000, 20000000)))
 		kC17Mono.Run(t, ev, perShard(pick(30000, 10000000)))
 		kC17Unit.Run(t, ev, perShard(pick(60000, 20000000)))
